@@ -39,7 +39,7 @@ func verifMarkExprs() []string {
 		"l[*]", "l[*].x", "o[*].x", "o.*.x", "[a, b][*]", "{x = a}[*].x",
 		"!a", "!(a && b)", "(a || b) && c", "a ? (b || c) : (b && c)",
 		"[for v in l : v]", "{for k, v in o : k => v}", "[for v in l : v if a]",
-		"l[0]", "o.x", "o[\"x\"]", "u.x", "u[\"x\"]", "ul[0]", "\"p${us}\"", "\"${us}${a}\"", "us == \"k\"", "\"${a}\"", "\"x${a}y${b}\"", "%{ if a }yes%{ else }no%{ endif }",
+		"l[0]", "o.x", "o[\"x\"]", "u.x", "u[\"x\"]", "ul[0]", "%{ for x in ul }${x}%{ endfor }", "a%{ for x in ul }${x}%{ endfor }b", "%{ for x in l }${x.x}%{ endfor }", "\"p${us}\"", "\"${us}${a}\"", "us == \"k\"", "\"${a}\"", "\"x${a}y${b}\"", "%{ if a }yes%{ else }no%{ endif }",
 	)
 	return out
 }
